@@ -138,21 +138,23 @@ def accSet : BinF := fun _ x => x
 def eOpIncr (s : St) (a b incr : Win) (f : BinF) (fv : BinF := f) : Res St := do
   if ((isSc a && !isSc b) || (isSc b && !isSc a)) && isSc incr then throwErr "Cannot increment on scalar increment"
   if isSc a && isSc b then
-    let s ← kVV s a b fv
-    if !isSc incr then eOp s incr a (fun x y => .app2 "add" x y)
-    else s.wr incr 1 0 (accAdd (← s.rd incr 1 0) (← s.rd a 1 0))
+    -- `tmp := []T{at[0]}; Vec<Op>(tmp, bt)`: `a op b` is computed in a temporary that is no part of the state;
+    -- `AddVS(it, tmp[0])` over a longer increment
+    let v := fv (← s.rd a 1 0) (← s.rd b 1 0)
+    if !isSc incr then kVS s incr v accAdd
+    else s.wr incr 1 0 (accAdd (← s.rd incr 1 0) v)
   else if isSc a then kIncrSV s (← s.rd a 1 0) b incr f accAdd
   else if isSc b then kIncrVS s a (← s.rd b 1 0) incr f accAdd
   else kIncrVV s a b incr fv accAdd
 
-/-- `E.OpIterIncr(t, a, b, incr, ait, bit, iit)`; `fIter` is what the scalar-scalar-nonscalar corner
-    re-dispatches to (`e.<Op>Iter(t, incr, a, iit, ait)`) -/
+/-- `E.OpIterIncr(t, a, b, incr, ait, bit, iit)`; the scalar-scalar corner computes `a op b` in a temporary and adds
+    it to the increment (`AddIterVS(it, tmp[0], iit)` over a longer increment) -/
 def eOpIterIncr (s : St) (a b incr : Win) (f : BinF) (ia ib ik : ItS) (fv : BinF := f) : Res St := do
   if ((isSc a && !isSc b) || (isSc b && !isSc a)) && isSc incr then throwErr "Cannot increment on a scalar increment"
   if isSc a && isSc b then
-    let s ← kVV s a b fv
-    if !isSc incr then eOpIter s incr a f ik ia
-    else s.wr incr 1 0 (accAdd (← s.rd incr 1 0) (← s.rd a 1 0))
+    let v := fv (← s.rd a 1 0) (← s.rd b 1 0)
+    if !isSc incr then kIterVS s incr v accAdd ik
+    else s.wr incr 1 0 (accAdd (← s.rd incr 1 0) v)
   else if isSc a then kIter3SV s (← s.rd a 1 0) b incr f accAdd ib ik
   else if isSc b then kIter3VS s a (← s.rd b 1 0) incr f accAdd ia ik
   else kIter3VV s a b incr f accAdd ia ib ik
